@@ -88,6 +88,7 @@ func runC19(c *Ctx, cs Case) {
 	// capture the store FullAssembly creates (Services does not expose it)
 	var theStore storage.Store
 	storage.Constructors["file"] = func(cfg config.Storage, eh *extension.Host) (storage.Store, error) {
+		file.VerifProcessRestart()
 		st, err := file.New(cfg, eh)
 		theStore = st
 		return st, err
